@@ -993,6 +993,9 @@ func absorb(wo *workerOut, race bool, prop string, tot *totals, start int) int {
 		if nHarness == len(parts2) || (nHarness > 0 && nHarness+nUnknown == len(parts2)) {
 			// both accesses are in harness code: not an access of the system under test; counted, not reported
 			tot.harnessRaces++
+			if os.Getenv("VSIM_SHOW_HARNESS_RACES") != "" && tot.harnessRaces <= 3 {
+				fmt.Fprintf(os.Stderr, "harness-internal race report (%s):\n%s\n", rr.Sig, rr.Text)
+			}
 			continue
 		}
 		accessor := false
